@@ -82,6 +82,8 @@ class C08(Prop):
             "prelude": gen.prelude(),
             # a second live connection in the same process (interleaved with this one, or blocked in a send)
             "companion": gen.companion(),
+            # calls with unsendable arguments that the application tries (and whose error it catches) on the way
+            "noise_calls": gen.noise_calls(),
         })
 
     def enumerations(self, tier):
@@ -102,8 +104,15 @@ class C08(Prop):
                             yield dict({"pre": [text], "mid": [text], "close_at": ["msg", 0], "close_args": [1000, "done"],
                                         "sends": [], "again": False, "eof": "after_pause", "seg": "whole",
                                         "close_timeout": 30.0, "prelude": {"kind": kind, "same": same, "end": end}}, **b)
+        text = {"kind": "text", "payload": ["str", "m\u00e9"], "forms": [0]}
+        base = {"pre": [text], "mid": [text], "close_at": ["msg", 0], "close_args": [1000, "done"], "sends": [], "again": False,
+                "eof": "after_pause", "seg": "whole", "close_timeout": 30.0}
+        small = [dict(base, mode="server_first", server_close={"kind": "close", "code": 1000, "reason": "bye"}),
+                 dict(base, mode="client_first", server_close={"kind": "close", "code": 1001, "reason": "ok then"}),
+                 dict(base, mode="close_in_closing", server_close={"kind": "close", "code": None})]
+        from harness.runner import with_noise, with_companion
         return [Enumeration("closing_handshakes_after_every_kind_of_earlier_connection", after_every_prelude,
-                            exhaustive=True)]
+                            exhaustive=True), with_noise(small), with_companion(small)]
 
     def run_case(self, case):
         mode = case["mode"]
